@@ -94,6 +94,10 @@ def touches(p, evs):
                     t.add('DEREF_STORED')
                 else:
                     t.add('OWN_SLOT_TAKE')
+            if n == 'std::mem::MaybeUninit::assume_init_read' and a:
+                x = a[-1]
+                if x[0] in ('ref', 'rawptr') and x[1][0] == 'local':
+                    t.add('OWN_SLOT_TAKE')  # the by-reference spelling of `slot.assume_init()` on the receiver's own slot
             if n in ('std::mem::MaybeUninit::as_ptr', 'std::mem::MaybeUninit::as_mut_ptr') and a:
                 x = a[0]
                 if cell_get(x) or (x[0] in ('ref', 'rawptr') and x[1][0] == 'deref' and cell_get(x[1][1])):
